@@ -134,11 +134,36 @@ STATE_SNIPS = [
     "{% for k, v in d|dictsort %}{{ k }}={{ v }}{% endfor %}", "{% for x in nested recursive %}{% if x is iterable and x is not string %}{{ loop(x) }}{% else %}{{ x }}{% endif %}{% endfor %}",
     "{% filter upper %}{{ words|join }}{% endfilter %}", "{% with acc = acc + [9] %}{{ acc|length }}{% endwith %}{{ acc|length }}",
     "{% set acc2 = acc %}{% set acc2 = acc2 + [1] %}{{ acc2|length }}{{ acc|length }}",
+    # a namespace built from a dict that belongs to the caller / the globals
+    "{% set nsd = namespace(d) %}{% set nsd.k = 'changed' %}{{ nsd.k }}{{ nsd.a }}", "{% set nsg = namespace(gl) %}{% set nsg.a = 'x' %}{{ nsg.a }}",
+    "{% set nst = namespace(tg, extra=1) %}{% set nst.k = 'y' %}{{ nst.k }}{{ nst.extra }}",
+    # a module imported without context whose macro reads a template-level global of the importer
+    "{% import 'lib2.html' as L2 %}{{ L2.show() }}{{ L2.tv }}", "{% from 'lib2.html' import show %}{{ show() }}",
+    # macros of a cached module with {% autoescape %} blocks; one of them fails (zero = 0)
+    "{% import 'lib3.html' as M %}{{ M.h(text) }}{{ M.ft(2) }}{{ M.ff(2) }}", "{% import 'lib3.html' as M %}{{ M.ft(zero) }}",
+    "{% import 'lib3.html' as M %}{{ M.ff(zero) }}", "{% import 'lib3.html' as M %}{{ M.h(words) }}",
+    # a cached module with module-level state (recorded finding C29-F3)
+    "{% import 'cnt.html' as C %}{{ C.nxt() }}",
 ]
 AUX = {
     "lib.html": "{% macro m(xs) %}[{{ xs|join(',') }}{{ gl.a }}]{% endmacro %}{% set v = gl.its|length %}",
     "inc.html": "<{{ nums|sum }}{{ words|first }}{{ tg.k }}>",
+    "lib2.html": "{% macro show() %}[{{ tgv }}]{% endmacro %}{% set tv = tgv %}",
+    "lib3.html": "{% macro ft(x) %}{% autoescape true %}{{ 4 // x }}{{ '<t>' }}{% endautoescape %}{% endmacro %}"
+                 "{% macro ff(x) %}{% autoescape false %}{{ 4 // x }}{{ '<f>' }}{% endautoescape %}{% endmacro %}"
+                 "{% macro h(x) %}{{ [x, '<i>'|safe]|join }}{% endmacro %}",
+    "cnt.html": "{% set ns = namespace(n=0) %}{% macro nxt() %}{% set ns.n = ns.n + 1 %}{{ ns.n }}{% endmacro %}",
 }
+
+SIG_MODULE_STATE = "cached module top-level namespace mutated by its macro"
+SIG_MODULE_EVALCTX = "cached-module macro autoescape block (shared module eval context)"
+
+
+def special_signature(src):
+    """templates that exercise a recorded finding get that finding's signature"""
+    if "cnt.html" in src:
+        return SIG_MODULE_STATE
+    return None
 
 
 def make_inputs():
@@ -148,7 +173,8 @@ def make_inputs():
         "d": {"k": "v", "a": 1}, "lines": "l1\nl2", "text": "some text http://x.y <b>bold</b>",
     }
     env_globals = {"gl": {"a": "ga", "its": ["g1", "g2"]}}
-    tpl_globals = {"tg": {"k": "tk", "lst": [1, 2]}}
+    tpl_globals = {"tg": {"k": "tk", "lst": [1, 2]}, "tgv": "T0"}
+    data["zero"] = 0
     return data, env_globals, tpl_globals
 
 
